@@ -846,7 +846,7 @@ FILE_FN = ("(fun c : tree * nmap * str * nat * list hunk * bool => let '(t, m, n
            "(if has_diff then diff_ok (get_code t) newc hs "
            " else lines_eqb (preamble (get_code t)) (preamble newc)))")
 
-PATH_FN = ("(fun c : str * list (str * str) * str => let '(p, rs, obs) := c in str_eqb (calc_to_path p rs) obs)")
+PATH_FN = ("(fun c : cpath * list (cpath * cpath) * cpath => let '(p, rs, obs) := c in cpath_eqb (calc_to_path p rs) obs)")
 
 REN_FN = ("(fun c : cpath * str * str * cpath * cpath => let '(dir, name, nn, f, t) := c in "
           "let r := calculate_rename dir name nn in cpath_eqb (fst r) f && cpath_eqb (snd r) t)")
@@ -856,7 +856,11 @@ Definition fs_same (a b : fs) : bool :=
   Nat.eqb (length a) (length b) &&
   forallb (fun e => match fs_lookup b (fst e) with Some c => N.eqb c (snd e) | None => false end) a.
 '''
-FS_FN = ("(fun c : list (cpath * N) * list (cpath * cpath) * fs * fs => let '(changed, renames, before, after) := c in fs_same (apply_fs changed renames before) after)")
+FS_FN = ("(fun c : list (option cpath * N) * list (cpath * cpath) * fs * fs * bool => "
+         "let '(changed, renames, before, after, refused) := c in "
+         "match apply_refactoring changed renames before with "
+         "| Some s' => negb refused && fs_same s' after "
+         "| None => refused && fs_same before after end)")
 
 
 # =============================================================================
@@ -1050,8 +1054,8 @@ class Analysis:
                 # paths correspondence: calc_to_path on the string form
                 if announced is not None:
                     self.path_cases.append('(%s, %s, %s)' % (
-                        g_str('/R/' + frm), g_list(renames, lambda r: '(%s, %s)' % (g_str('/R/' + r[0]), g_str('/R/' + r[1])), 'str * str'),
-                        g_str('/R/' + announced)))
+                        g_cpath(frm), g_list(renames, lambda r: '(%s, %s)' % (g_cpath(r[0]), g_cpath(r[1])), 'cpath * cpath'),
+                        g_cpath(announced)))
                     self.path_meta.append(dict(task=task, op=op, frm=frm, renames=renames, announced=announced))
                     ctx.count('paths', (key, frm), nontrivial=bool(renames))
                 if announced != true_to:
@@ -1192,8 +1196,10 @@ class Analysis:
             ctx.deviation(dict(stream='exc', kind=kind, exc=sg['exc'], site=sg['site'], phase='apply'),
                           self.where(task, op, dict(error=sg)), 'apply() raised %s (%s)' % (sg['exc'], sg['msg']))
             return
+        if st in ('RefactoringError', 'ok'):
+            self.fs_case(task, op, obs, renames, before, after, refused=(st == 'RefactoringError'))
         if st == 'RefactoringError':
-            if any(f['from'] is not None for f in obs['files']) and task['use_path']:
+            if all(f['from'] is not None for f in obs['files']):
                 ctx.deviation(dict(stream='apply', cls='apply-refused', kind=kind), self.where(task, op, dict(msg=res.get('apply_msg'))),
                               'apply() refused a refactoring of files on disk')
             elif after != before:
@@ -1233,21 +1239,31 @@ class Analysis:
                                                     on_disk={p: _bytes_repr(after.get(p)) for p in diffs[:3]},
                                                     announced={p: _bytes_repr(exp.get(p)) for p in diffs[:3]})),
                           'after apply() the directory is not the announced state (differs at %r)' % (diffs[:3],))
-        # the FS model on content ids
+
+    def fs_case(self, task, op, obs, renames, before, after, refused):
+        """the FS model on content ids: apply_refactoring(changed, renames, before) vs the directory"""
         ids = {}
         for p, c in sorted(before.items()):
-            ids.setdefault(c, len(ids) + 1)
+            ids.setdefault(c, len(set(ids.values())) + 1)
+        encs = task.get('enc') or {}
         changed = []
         for f in obs['files']:
-            if f['from'] is not None:
-                ids.setdefault(f['new_code'], len(ids) + 1)
-                changed.append((f['from'], ids[f['new_code']]))
+            if f['from'] is None:
+                ids.setdefault(f['new_code'], len(set(ids.values())) + 1)
+                changed.append((None, ids[f['new_code']]))
+            else:
+                # the byte encoding is not part of the FS model (the snapshot oracle compares bytes):
+                # the new code in the declared encoding and in UTF-8 get the same content id
+                c = f['new_code'].encode(encs.get(f['from'], 'utf-8')).decode('utf-8', 'surrogateescape')
+                i = ids.get(c) or ids.get(f['new_code']) or len(set(ids.values())) + 1
+                ids[c] = ids[f['new_code']] = i
+                changed.append((f['from'], i))
         g_fs = lambda d: g_list(sorted(d.items()), lambda e: '(%s, %s)' % (g_cpath(e[0]), g_N(ids.get(e[1], 999))), 'cpath * N')  # noqa: E731
-        self.fs_cases.append('(%s, %s, %s, %s)' % (
-            g_list(changed, lambda e: '(%s, %s)' % (g_cpath(e[0]), g_N(e[1])), 'cpath * N'),
+        self.fs_cases.append('(%s, %s, %s, %s, %s)' % (
+            g_list(changed, lambda e: '(%s, %s)' % (g_opt(e[0], g_cpath), g_N(e[1])), 'option cpath * N'),
             g_list(renames, lambda r: '(%s, %s)' % (g_cpath(r[0]), g_cpath(r[1])), 'cpath * cpath'),
-            g_fs(before), g_fs(after)))
-        self.fs_meta.append(dict(task=task, op=op, renames=renames, changed=[c[0] for c in changed]))
+            g_fs(before), g_fs(after), g_bool(refused)))
+        self.fs_meta.append(dict(task=task, op=op, renames=renames, changed=[c[0] for c in changed], refused=refused))
 
     # ---- Coq evaluation of everything collected
     def evaluate(self):
@@ -1295,7 +1311,7 @@ class Analysis:
             raise RuntimeError('coq evaluation failed (paths): ' + err[-1500:])
         for i in fails[:5]:
             mt = self.path_meta[i]
-            ctx.violation('obligation', dict(what='correspondence calc_to_path: announced to_path is not the string-prefix rewrite of the model',
+            ctx.violation('obligation', dict(what='correspondence calc_to_path: announced to_path is not the component-wise rewrite of the model',
                                              input=dict(frm=mt['frm'], renames=mt['renames'], announced=mt['announced'], op=mt['op'])), nofail=True)
         fails, err = common.coq_failing(IMPORTS, REN_FN, self.ren_cases, shard=400)
         if err:
@@ -1386,22 +1402,22 @@ FP_REFERENCE = {
     "jedi/api/refactoring/__init__.py:ChangedFile.get_diff": "f3f70942fd803166",
     "jedi/api/refactoring/__init__.py:ChangedFile.get_new_code": "03c3242d4ac37ef7",
     "jedi/api/refactoring/__init__.py:ChangedFile.apply": "a3b24727c5b1398a",
-    "jedi/api/refactoring/__init__.py:Refactoring.get_changed_files": "2899618abc880065",
+    "jedi/api/refactoring/__init__.py:Refactoring.get_changed_files": "5a537b8cb1a82eb8",
     "jedi/api/refactoring/__init__.py:Refactoring.get_renames": "a7b251813a72fbe1",
     "jedi/api/refactoring/__init__.py:Refactoring.get_diff": "e723b1d943217849",
-    "jedi/api/refactoring/__init__.py:Refactoring.apply": "cb3b332c31cda65e",
+    "jedi/api/refactoring/__init__.py:Refactoring.apply": "555d34c3ea84b1df",
     "jedi/api/refactoring/__init__.py:_calculate_rename": "eea4a8557aff09db",
     "jedi/api/refactoring/__init__.py:rename": "8baeec06e872b54b",
     "jedi/api/refactoring/__init__.py:inline": "f371560427ed5f45",
     "jedi/api/refactoring/__init__.py:_remove_indent_of_prefix": "130dd67fdeae1b70",
     "jedi/api/refactoring/extract.py:extract_variable": "6d7cadb8a0a98e47",
-    "jedi/api/refactoring/extract.py:extract_function": "29a6ff78694fdb7b",
+    "jedi/api/refactoring/extract.py:extract_function": "96f343fad8bfb6fc",
     "jedi/api/refactoring/extract.py:_replace": "e8e7727f4020ec15",
     "jedi/api/refactoring/extract.py:_find_nodes": "77ef10bb643bb892",
     "jedi/api/__init__.py:Script.rename": "67a6d9b4d4bd627f",
     "jedi/api/__init__.py:Script.inline": "36ea360a40ef9b05",
-    "jedi/api/__init__.py:Script.extract_variable": "ca76879a8d885966",
-    "jedi/api/__init__.py:Script.extract_function": "31bfa0119b92ee88",
+    "jedi/api/__init__.py:Script.extract_variable": "c6520c7502ccfc3d",
+    "jedi/api/__init__.py:Script.extract_function": "091824bfb8a6e340",
     "jedi/api/helpers.py:validate_line_column": "450bfff697739214"
 }
 
